@@ -200,6 +200,19 @@ def build(case):
         raise ValueError(cls)
     for t, d in case["dists"].items():
         impl.apply_dist(m, t, d)
+    # set_params / get_params must not depend on a declared named_params subset (only set_named_params does):
+    # a deterministic third of the models declares a strict subset (the D18 regression: Midline located midext_prob
+    # through get_num_dims())
+    if cls != "HPVUnilateral":
+        import hashlib
+        import json as _json
+        import random as _random
+        h = int(hashlib.sha1(_json.dumps(case, sort_keys=True, default=str).encode()).hexdigest()[:8], 16)
+        if h % 3 == 0:
+            names = list(m.get_params(as_dict=True))
+            r = _random.Random(h)
+            sub = [n for n in names if r.random() < 0.5][:max(1, len(names) - 1)] or names[:1]
+            m.named_params = sub
     return m
 
 
